@@ -232,10 +232,13 @@ fn handle_diagnostics(
         diagnostics.iter().for_each(|d| {
             let diagnostic = map_diagnostic(d, &files_to_ids);
 
-            let _ = term::emit(&mut writer.lock(), &config, &files, &diagnostic).map_err(|err| {
+            if let Err(err) = term::emit(&mut writer.lock(), &config, &files, &diagnostic) {
                 error!("Failed writing to terminal: {}", err);
-                1usize
-            });
+                // The rich rendering failed (for example, a label refers to a file that is
+                // not part of the set). The problem must still be reported, so fall back
+                // to a plain message with the problem code.
+                eprintln!("error[{}]: {}", d.code, d.description());
+            }
         });
     }
 }
